@@ -233,8 +233,9 @@ def codeRESTORE (s : St) : Dec :=
   | [] => { s := s, errs := [errNoSaveFrame] }
   | (c, p, l) :: rest =>
     let s0 := { s with saves := rest }
-    let dp1 := decide (p ≠ s0.actPC)
-    let s1 := if p ≠ s0.actPC then { s0 with actPC := p } else s0
+    -- the structure pseudo segment is only valid while its STRUCT is open: it is never reinstated
+    let dp1 := decide (p ≠ s0.actPC ∧ p ≠ structSeg)
+    let s1 := if p ≠ s0.actPC ∧ p ≠ structSeg then { s0 with actPC := p } else s0
     let dp2 := decide (c ≠ s1.cpu)           -- `SetCPUByType` → `SetCPUCore` sets `DontPrint`
     let s2 := if c ≠ s1.cpu then { s1 with cpu := c } else s1
     { s := { s2 with listOn := l }, dontPrint := dp1 || dp2 }
